@@ -32,6 +32,8 @@ pub struct TexSpec {
 pub enum Mode {
     Full,
     WrongMagic(u32),
+    /// only byte `i` (0..4) of the magic number differs (xor with a non-zero value)
+    WrongMagicByte(u8, u8),
     /// one strict prefix (index-mapped cut)
     Prefix(u16),
     /// every strict prefix (files <= `limit` bytes), otherwise all cuts inside the first 1 KiB, around payload boundaries and every `stride`-th
@@ -110,7 +112,7 @@ impl Prop for C20 {
         "Lists of 0..=6 textures (names from ASCII letters/digits/punctuation, half-width kana and kanji - no format characters; Shift-JIS in CTPK, UTF-8 in BCH/CGFX, none in TPL; sides 8/16/32 for the 3DS containers, any 1..=64 for TPL; any of the 9 supported formats (CI8 + RGB5A3 palette for TPL); random payloads) \
          x container in {CTPK, BCH, CGFX, TPL} x placement (0 = usual layout; otherwise a seeded conforming layout: CTPK names before/after payloads with gaps and arbitrary per-texture offsets; BCH both header shapes (compat byte <= 20 / >= 0x21), the four sections in any order with gaps, pointer table before/after the records; \
          CGFX TXOBs in any order after the DICT, names and payloads in any order after them, forward self-relative offsets; TPL table, headers, palette and image data in any order). Oracle, full file: Ok, same count and order, names equal where stored, dimensions equal, pixel data equal to the reference decoding of that texture's own payload (and to mila's decoding of the same payload in a single-texture CTPK). \
-         Wrong magic (BCH, CGFX, TPL) => Err. Strict prefixes (every cut for files <= 4 KiB quick / 64 KiB thorough, otherwise all cuts in the first 1 KiB, payload boundaries +-1 and a stride): no panic in either build, and Err whenever the cut lies before the end of some non-empty payload. \
+         Wrong magic (BCH, CGFX, TPL; a random 32-bit value, or a single differing byte at each of the four positions) => Err. Strict prefixes (every cut for files <= 4 KiB quick / 64 KiB thorough, otherwise all cuts in the first 1 KiB, payload boundaries +-1 and a stride): no panic in either build, and Err whenever the cut lies before the end of some non-empty payload. \
          Non-trivial: >= 2 textures with different formats, or a non-default placement; for prefixes: the cut falls inside a payload or a table. Distinct = distinct case value."
             .into()
     }
@@ -132,6 +134,7 @@ impl Prop for C20 {
         let mode = prop_oneof![
             4 => Just(Mode::Full),
             1 => any::<u32>().prop_map(Mode::WrongMagic),
+            1 => (0u8..4, any::<u8>()).prop_map(|(i, x)| Mode::WrongMagicByte(i, x)),
             4 => any::<u16>().prop_map(Mode::Prefix),
             1 => (1u16..40).prop_map(|stride| Mode::Cuts { limit: 2048, stride }),
         ];
@@ -153,7 +156,7 @@ impl Prop for C20 {
                     let texs: Vec<TexSpec> = (0..ntex)
                         .map(|i| TexSpec { name: ["tex_a", "\u{FF83}\u{FF78}\u{FF7D}\u{FF81}\u{FF6C}", "\u{5730}\u{56F3}.bch", ""][(i + placement as usize) % 4].to_string(), fmt: ((placement as usize * 3 + i * 4) % 9) as u8, w: (i + placement as usize) as u8 % 2, h: placement as u8 % 2, seed: placement * 10 + i as u64 })
                         .collect();
-                    for mode in [Mode::Full, Mode::WrongMagic(0x1234_5678), Mode::Cuts { limit, stride: 7 }] {
+                    for mode in [Mode::Full, Mode::WrongMagic(0x1234_5678), Mode::WrongMagicByte(0, 1), Mode::WrongMagicByte(1, 0x80), Mode::WrongMagicByte(2, 0xFF), Mode::WrongMagicByte(3, 1), Mode::WrongMagicByte(3, 0xFF), Mode::Cuts { limit, stride: 7 }] {
                         if !f(Case { container, texs: texs.clone(), placement, mode }) {
                             return;
                         }
@@ -243,13 +246,21 @@ impl Prop for C20 {
                 }
                 cx.label("full");
             }
-            Mode::WrongMagic(m) => {
+            Mode::WrongMagic(_) | Mode::WrongMagicByte(..) => {
                 if case.container == Container::Ctpk {
                     return; // the statement lists BCH, CGFX and TPL
                 }
                 let mut f2 = file.clone();
                 let good = [f2[0], f2[1], f2[2], f2[3]];
-                let mut bad = m.to_le_bytes();
+                let mut bad = match &case.mode {
+                    Mode::WrongMagic(m) => m.to_le_bytes(),
+                    Mode::WrongMagicByte(i, x) => {
+                        let mut b = good;
+                        b[*i as usize % 4] ^= (*x).max(1);
+                        b
+                    }
+                    _ => unreachable!(),
+                };
                 if bad == good {
                     bad[0] ^= 0xFF;
                 }
